@@ -1,8 +1,10 @@
 SPECIFICATION Spec
 CONSTANTS
   Subs = {"s1", "s2"}
+  CheckLineLength = TRUE
   RenameFirst = TRUE
 INVARIANT SignedIffWanted
 INVARIANT SubsNeverSigned
+INVARIANT SignedOverEntries
 INVARIANT FailureReported
 INVARIANT NoSpuriousFailure
